@@ -401,6 +401,7 @@ func cmdRun(args []string) int {
 	reported := 0
 	known := 0
 	perClass := map[string]int{}
+	printedKnown := map[string]bool{}
 	for _, sig := range sigs {
 		v := bySig[sig][0]
 		// prefer the smallest failing scenario as the starting point
@@ -410,7 +411,10 @@ func cmdRun(args []string) int {
 			}
 		}
 		if k := kf.match(&v); k != nil {
-			fmt.Printf("KNOWN-FINDING: property=%s %s\n", prop, k.What)
+			if !printedKnown[k.What] {
+				printedKnown[k.What] = true
+				fmt.Printf("KNOWN-FINDING: property=%s %s\n", prop, k.What)
+			}
 			known++
 			continue
 		}
